@@ -5,6 +5,11 @@ R09.1 operations documented as returning a new tree (or a value) leave the recei
       untouched (region/effect analysis, L5, with tree-specific effect facts)
 R09.3 the new tree they return shares no mutable state (params dicts) with the receiver
 R09.2 the Newick writer quotes every character the reader treats as structure
+
+Added in build round 2 (see DESIGN.md section 3, round-2 table):
+R09.4 JSON tree protocol: the newick written by to_rich_dict is read back by deserialise_tree with the matching convention -- blanks are munged to ...
+R09.5 TreeBuilder._unique_name: a name it modifies (counter appended) is checked again against the names in use before it is handed out (recursive call or ...
+R09.6 unrooted() removes one edge below the root (the first internal child is dissolved, its children are promoted): the promoted nodes keep their own ...
 """
 
 from __future__ import annotations
